@@ -42,7 +42,7 @@ def load_props():
     return props.PROPS
 
 
-def run_functions(index, registry, quals, models, timeout_ms, seed, second=None):
+def run_functions(index, registry, quals, models, timeout_ms, seed, second=None, pid=None):
     """Verify each function; returns per-function records."""
     recs = []
     for q in quals:
@@ -52,6 +52,9 @@ def run_functions(index, registry, quals, models, timeout_ms, seed, second=None)
             if fi is None:
                 raise Undecided("function %s not found in the current source" % q)
             eng, obs, cx, t = verify_function(index, registry, q, models)
+            if pid is not None:
+                # obligations tagged with properties are counted only for those; untagged (auxiliary) ones for every property
+                obs = [o for o in obs if not o.props or pid in o.props]
             rec["source_hash"] = fi.hash
             rec["symexec_s"] = round(t, 3)
             res = discharge(obs, cx.facts, timeout_ms=timeout_ms, seed=seed, second=second)
@@ -68,7 +71,7 @@ def run_functions(index, registry, quals, models, timeout_ms, seed, second=None)
             c = registry[q]
             rec["assumed"] = [a.name + ": " + a.expr + "  (" + getattr(a, "why", "") + ")" for a in c.assume]
             rec["requires"] = [a.name + ": " + a.expr for a in c.requires]
-            missing = [h for h in c.hooks if h not in eng.hooks_fired]
+            missing = [h for h in c.hooks if h not in eng.hooks_fired] + [cut["key"] for k, cut in enumerate(c.cuts) if k not in eng.cuts_fired]
             if missing:
                 rec["status"] = "undecided"
                 rec["error"] = "ghost hook statement(s) not found in the current source: %s" % missing
@@ -105,7 +108,7 @@ def summarize(recs):
     return tot, dis, failed, undecided, errors
 
 
-def run_mutants(registry, mutants, models, timeout_ms, seed, only=None):
+def run_mutants(registry, mutants, models, timeout_ms, seed, only=None, pid=None):
     """In-memory mutations of the freshly parsed source; each must fail its expected obligation."""
     out = []
     for m in mutants:
@@ -128,7 +131,7 @@ def run_mutants(registry, mutants, models, timeout_ms, seed, only=None):
                 continue
             idx = RepoIndex(overrides={m["path"]: msrc})
             for attempt in range(3):
-                recs = run_functions(idx, registry, m["functions"], models, timeout_ms * (1 + 2 * attempt), seed + attempt)
+                recs = run_functions(idx, registry, m["functions"], models, timeout_ms * (1 + 2 * attempt), seed + attempt, pid=pid)
                 _, _, failed, und, err = summarize(recs)
                 rec["failed"] = [o["name"] for o in failed]
                 rec["detected"] = any(m["expect"] in n for n in rec["failed"])
@@ -215,7 +218,7 @@ def main():
         print("source does not parse:", index.parse_errors)
         return 3
     second = ["cvc5"] if tier == "thorough" else None
-    recs = run_functions(index, registry, P["functions"], models, timeout_ms, seed, second)
+    recs = run_functions(index, registry, P["functions"], models, timeout_ms, seed, second, pid=pid)
     tot, dis, failed, undecided, errors = summarize(recs)
     # lemmas / scans (pure python obligations: coverage scans etc.)
     extra = []
@@ -242,10 +245,11 @@ def main():
     muts = P.get("mutants", [])
     if tier == "quick":
         k = min(3, len(muts))
-        sel = [muts[(seed + i * 7) % len(muts)]["id"] for i in range(k)] if muts else []
-        mres = run_mutants(registry, muts, models, timeout_ms, seed, only=set(sel))
+        import random as _r
+        sel = [m["id"] for m in _r.Random(seed).sample(muts, k)] if muts else []
+        mres = run_mutants(registry, muts, models, timeout_ms, seed, only=set(sel), pid=pid)
     else:
-        mres = run_mutants(registry, muts, models, timeout_ms, seed)
+        mres = run_mutants(registry, muts, models, timeout_ms, seed, pid=pid)
     missed = [m for m in mres if m.get("status") in ("missed", "other-obligation", "error")]
     inconclusive = [m for m in mres if m.get("status") == "inconclusive"]
     # bounded / native layers
